@@ -52,7 +52,7 @@ class TheoryPy:
 
     def to_ge_polyhedron(self, active, reduced):
         if reduced:
-            raise Unsupported("A-rs1 covers to_ge_polyhedron(active, reduced=False) only")
+            return self._open_reduced(active)
         st = self.statements
         idx = [s.variable for s in st]
         if any(type(i) is not int for i in idx) or len(set(idx)) != len(idx):
@@ -92,6 +92,26 @@ class TheoryPy:
             b.append(e)
         val = [x for r in rows for x in r]
         return _Poly(_Mat(val, len(rows), len(cols)), b, [_Var(i, by[i].bounds) for i in cols])
+
+
+def _open_reduced(self, active):
+    """to_ge_polyhedron(active, reduced=True) as an OPEN contract: what the compiled reduction returns is not modelled (A-rs1
+    covers reduced=False only) -- the answer is a matrix of fresh symbolic integers (two rows) over the statement indices in
+    increasing order, a fresh symbolic right-hand side, and the statements' own bounds.  Only obligations about how the
+    Python glue TRANSPORTS that answer (b | A, column variables looked up by index) can be stated over it."""
+    import z3
+    from .sym import SInt, fresh_name
+    by = {s.variable: s for s in self.statements}
+    cols = sorted(by)
+    nrows = 2
+    val = [SInt(z3.Int(fresh_name(f"rs.red.a{i}.{j}"))) for i in range(nrows) for j in cols]
+    b = [SInt(z3.Int(fresh_name(f"rs.red.b{i}"))) for i in range(nrows)]
+    p = _Poly(_Mat(val, nrows, len(cols)), b, [_Var(i, by[i].bounds) for i in cols])
+    TheoryPy.last_reduced = (self, p, active)
+    return p
+
+
+TheoryPy._open_reduced = _open_reduced
 
 
 def _theory_solve(self, objectives, reduced):
